@@ -39,7 +39,7 @@ NoObs == [none |-> TRUE]
 RECURSIVE Report(_, _)
 Report(S, line) == IF S = {} THEN TRUE
                    ELSE LET c == CHOOSE x \in S : TRUE IN TLCSet(3, Append(TLCGet(3), <<line, c>>)) /\ Report(S \ {c}, line)
-Note(b, d) == /\ bad' = bad \cup b /\ Report(b \ bad, l)
+Note(b, d) == /\ bad' = bad \cup b /\ Report(b, l)
               /\ drift' = drift + (IF d THEN 1 ELSE 0) /\ TLCSet(2, drift')
               /\ (IF d /\ Len(TLCGet(4)) < 40 THEN TLCSet(4, Append(TLCGet(4), l)) ELSE TRUE)
 
